@@ -71,7 +71,21 @@ func (rm *RegistrationManager) HandleRegUpdates(ctx context.Context, regChan <-c
 	// distribute messages to workers. When workers are unavailable messages are
 	// added into channel buffer until full, then dropped.
 distrLoop:
-	for msg := range regChan {
+	for {
+		// Wait for the next message or for the stop request, whichever comes first: ranging over
+		// regChan alone would only notice a stop request when (and if) another message arrives.
+		var msg interface{}
+		select {
+		case <-ctx.Done():
+			logger.Infof("closing all ingest threads")
+			break distrLoop
+		case m, ok := <-regChan:
+			if !ok {
+				break distrLoop
+			}
+			msg = m
+		}
+
 		rm.addIngestMessage()
 		select {
 		case <-ctx.Done():
